@@ -289,6 +289,7 @@ func (queue *FileQueue) Put(flag uint32, key []byte, val []byte) error {
 
 	// TODO del tmp file.
 	queue.emptyFile(path)
+	verifhook.Yield("store.FileQueue.Put:between-empty-and-flush")
 	length, err := FileUtilsFlush(path, queue.Offset, buf)
 	if err != nil {
 		return err
@@ -312,6 +313,7 @@ func (queue *FileQueue) PutBatch(items []*BatchItem) error {
 	path := queue.path()
 	totalBuf := queue.mergeBatchItems(tmpBuf)
 	queue.emptyFile(path)
+	verifhook.Yield("store.FileQueue.PutBatch:between-empty-and-flush")
 	_, err = FileUtilsFlush(path, queue.Offset, totalBuf)
 	if err != nil {
 		return err
